@@ -92,7 +92,7 @@ package rhp
 //@        && result0.Usage == callres("ReviseForFreeSectors", 1)
 //@   ensures [hostsig] result1 == nil ==> hostSigned(contract.Revision.HostPublicKey, callres("ReviseForFreeSectors", 0), result0.Revision)
 //
-//@ func RPCAppendSectors props C10
+//@ func RPCAppendSectors props C10,C09
 //@   nopanic
 //@   requires t != nil && signer != nil
 //@   requires contract.Revision.Filesize <= 1 << 62
@@ -120,7 +120,7 @@ package rhp
 //@        && callarg("ReviseForFundAccounts", 0) == contract.Revision && result0.Usage == callres("ReviseForFundAccounts", 1)
 //@   ensures [hostsig] result1 == nil ==> hostSigned(contract.Revision.HostPublicKey, callres("ReviseForFundAccounts", 0), result0.Revision)
 //
-//@ func RPCSectorRoots props C10
+//@ func RPCSectorRoots props C10,C09
 //@   nopanic
 //@   requires t != nil && signer != nil
 //@   requires contract.Revision.Filesize <= 1 << 62
